@@ -77,4 +77,19 @@ example : (match addPe pe1 [0x2e, 0x72] [1, 2] with
            | _ => false) = true := by
   decide +kernel
 
+def pe2 : Bytes := [0, 0, 0, 0, 0, 0, 0, 0, 0, 0, 0, 0, 0, 0, 0, 0, 0, 0, 0, 0, 0, 0, 0, 0, 0, 0, 0, 0, 0, 0, 0, 0, 0, 0, 0, 0, 0, 0, 0, 0, 0, 0, 0, 0, 0, 0, 0, 0, 0, 0, 0, 0, 0, 0, 0, 0, 0, 0, 0, 0, 68, 0, 0, 0, 0, 0, 0, 0, 80, 69, 0, 0, 0, 0, 1, 0, 0, 0, 0, 0, 0, 0, 0, 0, 0, 0, 0, 0, 64, 0, 0, 0, 0, 0, 0, 0, 0, 0, 0, 0, 0, 0, 0, 0, 0, 0, 0, 0, 0, 0, 0, 0, 0, 0, 0, 0, 0, 0, 0, 0, 0, 0, 0, 0, 16, 0, 0, 0, 16, 0, 0, 0, 0, 0, 0, 0, 0, 0, 0, 0, 0, 0, 0, 0, 0, 0, 0, 0, 0, 0, 0, 0, 0, 0, 0, 0, 46, 115, 48, 0, 0, 0, 0, 0, 16, 0, 0, 0, 16, 0, 0, 0, 16, 0, 0, 0, 208, 0, 0, 0, 0, 0, 0, 0, 0, 0, 0, 0, 0, 0, 0, 0, 0, 0, 0, 0, 0, 0, 0, 0, 0, 0, 0, 0, 0, 0, 0, 0, 228, 177, 71, 200, 194, 249, 221, 29, 43, 245, 49, 21, 108, 253, 216, 70]
+
+/-- (3) **Known finding C19-F10**: one section, `FileAlignment` 16, only 8 bytes between the section table and the
+first raw data: `add_section_to_pe` makes room by inserting *one* file alignment (16 bytes), which with the
+gap is less than the 40 bytes of the section header it then writes — the header runs into the first
+section's raw data.  The call succeeds, the payload reads back, but the bytes of section 0 (16 bytes at
+offset 208 of the input, at 224 of the output) are **not** the original ones.  (The model is of the code as
+it is: this replays on the real function, byte for byte.) -/
+theorem C19_pe_small_alignment_witness :
+    (match addPe pe2 [0x2e, 0x72] [1, 2, 3, 4] with
+     | .ok out => decide ((out.drop 224).take 16 ≠ (pe2.drop 208).take 16) &&
+                  decide (extractPe out [0x2e, 0x72] = .ok (some ([1, 2, 3, 4] ++ zeros 12)))
+     | _ => false) = true := by
+  decide +kernel
+
 end Rj.C19
